@@ -47,9 +47,9 @@ DefaultDenotes(s, o) == DefaultVal(s, o)
 \* the history: calls in order
 Hist(h) ==   \* h = [n, a, apos, c]: normal entries, as-defaults entries, position of the as-defaults read, cli occurrences
   (IF h.n > 0 THEN <<"iniN">> ELSE <<>>)
-  \o (IF h.a > 0 /\ h.apos = "before" THEN <<"iniD">> ELSE <<>>)
+  \o (IF h.a > 0 /\ h.apos \in {"before", "both"} THEN <<"iniD">> ELSE <<>>)
   \o <<"args">>
-  \o (IF h.a > 0 /\ h.apos = "after" THEN <<"iniD">> ELSE <<>>)
+  \o (IF h.a > 0 /\ h.apos \in {"after", "both"} THEN <<"iniD">> ELSE <<>>)
 
 RunHist(s0, o, h) ==
   FoldLeft(LAMBDA s, op :
@@ -73,7 +73,7 @@ Expand ==
   /\ st.stage = "seed"
   /\ LET d == Decls[st.di] IN
      \E o \in {o \in 1..Len(d.opts) : ~FlagLike(d.opts[o]) /\ d.opts[o].vtype = "string" /\ d.opts[o].choices = <<>> /\ ~d.opts[o].noIni /\ d.opts[o].cmd = 1} :      \* the tagged values are texts
-       \E n \in 0..2, a \in 0..2, apos \in {"before", "after"}, c \in 0..2, envState \in {"unset", "set", "empty"} :
+       \E n \in 0..2, a \in 0..2, apos \in {"before", "after", "both"}, c \in 0..2, envState \in {"unset", "set", "empty"} :
           /\ (d.opts[o].env = E => envState = "unset")
           /\ (a = 0 => apos = "before")
           /\ st' = [stage |-> "hist", di |-> st.di, o |-> o, h |-> [n |-> n, a |-> a, apos |-> apos, c |-> c], envState |-> envState]
